@@ -26,7 +26,7 @@ func runC07(r *oblig.Report) {
 		"(R9.4) every merge error names the file being processed and takes its position from that file; (C07.5) every SourceInfo takes its File from the file whose parse produced the object; the requested schema version is stored; " +
 		"(C07.8) the list a relation clash is tested against is rebuilt from the live map for every item; (C07.7) GetModuleForObjectTypeRelation has the documented three outcomes."
 	r.NotCovered = []string{"the iff between success and conflict-freedom and conservation ('none lost, none invented') over all file sets (value arguments)",
-		"observed on the unchanged tree, outside what these rules decide: a non-module file whose types have relations is accepted; a file that declares and extends the same type is rejected"}
+		"a file with a model header and no type at all is not recognised as a non-module file (nothing in it carries a module name to test)"}
 	r.Assumptions = []string{"as C08 for the panic engine"}
 	c := NewCtx(r)
 	if c == nil {
@@ -50,6 +50,11 @@ func runC07(r *oblig.Report) {
 	e5path.FreshMembership(c.P, r, "C07.8")
 	r.Rule("C07.9", "path-enumeration", "an extension's relations are adopted wholesale only after the base type itself was found to have none", 1)
 	e5path.LiveAdoption(c.P, r, "C07.9")
+	mfs := c.Reach(c.Entries("transformer.TransformModuleFilesToModel"))
+	r.Rule("C07.11", "instance-table", "a definition is taken for an extension by comparing it with the recorded extension definition, not by its name", 1)
+	e5path.ExtensionByDefinition(c.P, r, "C07.11", mfs)
+	r.Rule("C07.12", "instance-table", "'file is not a module' is decided by the module name attached to a type, not by the presence of metadata", 1)
+	e5path.ModuleByModuleName(c.P, r, "C07.12", mfs)
 	e5path.ModuleLookupShape(c.P, r, "C07.7")
 	noPackageState(c.P, r, c.Reach(c.Entries("transformer.TransformModuleFilesToModel", "utils.GetModuleForObjectTypeRelation")))
 }
